@@ -1,36 +1,17 @@
 import Driver.Util
 import LC.Model.V2Env
+import LC.Model.HtmlUnescape
 /- v2 drivers: stage `tok` (bytes → tokens, lines, copyright lines). -/
 namespace Driver.V2
 open Driver LC.Utf8 LC.V2Tok
 
-/-- placeholder until the html.UnescapeString model is linked: identity on words where Go's
-UnescapeString is certainly the identity (no '&' followed by an ASCII letter, digit or '#');
-such words set the flag and the case is reported as outside the modelled domain. -/
-def needsUnescape : List Rune → Bool
-  | 38 :: c :: rest =>
-    ((97 ≤ c && c ≤ 122) || (65 ≤ c && c ≤ 90) || (48 ≤ c && c ≤ 57) || c = 35) || needsUnescape (c :: rest)
-  | _ :: rest => needsUnescape rest
-  | [] => false
-
-def env : Env := LC.V2Env.goEnv id
+def env : Env := LC.V2Env.goEnv LC.Html.unescapeRunes
 
 def showDoc (d : Doc) : String :=
   joinWith " " (d.toks.map (fun t => hex (encode t.word) ++ ":" ++ toString t.line)) ++ "#" ++
     joinWith "." (d.copyrights.map toString)
 
-/-- does any word flushed during the scan need the entity decoder? (re-scan with a marking env) -/
-def anyNeedsUnescape (normalize : Bool) (rs : List Rune) : Bool :=
-  -- mark by making `unescape` return a sentinel word that survives to the tokens
-  let E : Env := { env with unescape := fun w => if needsUnescape w then [0x10FFFF] else w,
-                            ignorable := fun s => s.contains 0x10FFFF,
-                            isLetter := fun r => r = 0x10FFFF || env.isLetter r }
-  let d := tokenizeRunes E normalize rs
-  !d.copyrights.isEmpty && rs.contains 38
-
 def runTok (normalize : Bool) (bs : List UInt8) : String :=
-  let rs := feed bs
-  if rs.contains 38 && anyNeedsUnescape normalize rs then "SKIP-UNESCAPE"
-  else showDoc (tokenizeRunes env normalize rs)
+  showDoc (tokenizeRunes env normalize (feed bs))
 
 end Driver.V2
